@@ -79,6 +79,7 @@ type c05mReader struct {
 	stream  *c05mStream // the stream history it was opened on
 	snapS   *c05mSnap   // the snapshot it was opened on
 	closed  bool
+	started bool
 	pipeCap int  // capacity of its pipe (Available() when empty)
 	mustEnd bool // invalidated: must end or fail (reset, snapshot lost, writer ended without successor)
 	mayEnd  bool // its writer was replaced since it was opened: may end or follow on
@@ -114,6 +115,8 @@ type c05mem struct {
 	aofSR   *c05mStepReader
 	rdbW    RdbChannelWriter
 	rdbSR   *c05mStepReader
+	aofBlocked []byte // chunk of a stream append that is waiting for capacity
+	rdbBlocked []byte // chunk of a snapshot append that is waiting for capacity
 	readers map[int]*c05mReader
 	nextRid int
 	opIdx   int
@@ -295,6 +298,7 @@ func (d *c05mem) probes() []int64 {
 }
 
 func (d *c05mem) observe() {
+	d.afterOp()
 	d.query(d.probes())
 	d.dump()
 }
@@ -316,6 +320,7 @@ func (d *c05mem) dropWriters() {
 		close(d.rdbSR.data)
 	}
 	d.aofW, d.aofSR, d.rdbW, d.rdbSR = nil, nil, nil, nil
+	d.aofBlocked, d.rdbBlocked = nil, nil
 }
 
 func (d *c05mem) opNew(logSize, maxSize int64) {
@@ -393,11 +398,12 @@ func (d *c05mem) opRdbAppend(chunk []byte) {
 	}
 	n := c05mRdbWritten(w) - before
 	if res == "blocked" {
-		// the append is waiting for capacity: the harness gives up on this writer
-		d.snapS.bytes = append(d.snapS.bytes, chunk[:n]...)
 		d.emit("mrdba "+vfutil.Hex(chunk), fmt.Sprintf("blocked %d", n))
 		d.s.Count("rdb_append_blocked")
-		d.opRdbClose()
+		if n != 0 {
+			d.s.Violate("harness", "blocked append was expected to be a single piece", d.replay(nil))
+		}
+		d.rdbBlocked = chunk
 		return
 	}
 	d.snapS.bytes = append(d.snapS.bytes, chunk...)
@@ -474,21 +480,47 @@ func (d *c05mem) opAofAppend(chunk []byte) {
 		d.emit("maofa "+vfutil.Hex(chunk), "ok")
 		return
 	}
-	// blocked on capacity: bytes appended so far are in the segments
+	// blocked on capacity (single-piece appends: nothing was appended yet); the
+	// writer stays blocked until something frees space
 	n := c05mAofRight(w) - before
-	if n < 0 || n > int64(len(chunk)) {
-		n = 0
-	}
-	d.stream.bytes = append(d.stream.bytes, chunk[:n]...)
 	d.emit("maofa "+vfutil.Hex(chunk), fmt.Sprintf("blocked %d", n))
 	d.s.Count("aof_append_blocked")
-	d.opAofClose()
+	if n != 0 {
+		d.s.Violate("harness", "blocked append was expected to be a single piece", d.replay(nil))
+	}
+	d.aofBlocked = chunk
+}
+
+// afterOp: a blocked writer may have been woken by the op that just ran.
+func (d *c05mem) afterOp() {
+	if d.aofBlocked != nil && d.aofSR != nil && d.aofSR.ready() {
+		d.stream.bytes = append(d.stream.bytes, d.aofBlocked...)
+		d.aofBlocked = nil
+		d.s.Count("aof_append_unblocked")
+	}
+	if d.rdbBlocked != nil && d.rdbSR != nil {
+		w := d.rdbW
+		switch {
+		case d.rdbSR.ready():
+			d.snapS.bytes = append(d.snapS.bytes, d.rdbBlocked...)
+			d.rdbBlocked = nil
+			d.s.Count("rdb_append_unblocked")
+		case d.writerDone(w):
+			d.snapS.bytes = append(d.snapS.bytes, d.rdbBlocked...)
+			d.rdbBlocked = nil
+			d.snapS.live = false
+			d.snapS.done = int64(len(d.snapS.bytes)) == d.snapS.size
+			close(d.rdbSR.data)
+			d.rdbW, d.rdbSR = nil, nil
+			d.s.Count("rdb_append_unblocked")
+		}
+	}
 }
 
 func (d *c05mem) opAofClose() {
 	w, sr := d.aofW, d.aofSR
 	for _, vr := range d.readers {
-		if vr.isAof {
+		if vr.isAof && vr.started {
 			vr.mustEnd = true
 		}
 	}
@@ -526,11 +558,9 @@ func (d *c05mem) opOpen(off int64) {
 	if mr, ok := rd.(*MemoryReader); ok {
 		vr.pipeCap, _ = mr.pipeW.Available()
 	}
-	rd.Start(vr.wait)
 	synctest.Wait()
 	if vr.isAof {
 		vr.pos = off
-		vr.mustEnd = d.aofW == nil
 		if vr.stream == nil {
 			vr.stream = &c05mStream{base: -1}
 		}
@@ -546,6 +576,20 @@ func (d *c05mem) opOpen(off int64) {
 	if !valid {
 		d.s.Violate("reader-for-invalid-offset", fmt.Sprintf("NewReader(%d) succeeded although IsValidOffset is false", off), d.replay(nil))
 	}
+}
+
+// opStart: ChannelReader.Start — the copy goroutine begins (callers do this
+// right after NewReader; the harness sometimes delays it, which is the window
+// in which a reader holds its reference without copying).
+func (d *c05mem) opStart(rid int) {
+	vr := d.readers[rid]
+	vr.rd.Start(vr.wait)
+	vr.started = true
+	if vr.isAof && d.aofW == nil {
+		vr.mustEnd = true // no writer to follow: drains what is held and ends
+	}
+	synctest.Wait()
+	d.emit(fmt.Sprintf("mstart %d", rid), "ok")
 }
 
 func (d *c05mem) invalidated(vr *c05mReader) bool { return vr.closed || vr.mustEnd }
@@ -564,7 +608,9 @@ func (d *c05mem) opRead(rid int, n int) {
 	if wouldBlock {
 		d.emit(op, "blocked")
 		d.s.Count("read_blocked")
-		if d.invalidated(vr) {
+		if !vr.started {
+			// not started yet: nothing is copied, nothing can be said
+		} else if d.invalidated(vr) {
 			d.s.Violate("invalidated-reader-hangs", fmt.Sprintf("reader %d (start %d, pos %d) was invalidated but neither ends nor fails", rid, vr.start, vr.pos),
 				d.replay(map[string]interface{}{"reader": rid}))
 		} else if vr.isAof && vr.stream == d.stream && vr.pos < d.right() || !vr.isAof && vr.pos < int64(len(vr.snapS.bytes)) {
@@ -630,6 +676,39 @@ func (d *c05mem) liveReaders() []int {
 	return ids
 }
 
+func c05mSegLen(seg *memorySegment) int {
+	if seg == nil {
+		return 0
+	}
+	return seg.blob.len()
+}
+
+// pieceLimit bounds a chunk so that the append is a single mutex-protected
+// piece whenever the collector could run inside it: between two pieces of one
+// append the copy goroutines run concurrently with the writer, and what the
+// collector may remove then depends on the scheduler (outside a sequential
+// harness). Multi-piece appends are kept when nothing has to be collected.
+func (d *c05mem) pieceLimit(want int, segLen int) int {
+	if d.maxSize == 0 {
+		return want
+	}
+	d.mc.mux.RLock()
+	total := d.mc.totalSize
+	d.mc.mux.RUnlock()
+	if total+int64(want) <= d.maxSize {
+		return want
+	}
+	lim := int(d.logSize) - segLen
+	if lim <= 0 {
+		lim = int(d.logSize)
+	}
+	if want < lim {
+		return want
+	}
+	d.s.Count("append_limited_to_one_piece")
+	return lim
+}
+
 func (d *c05mem) chunk(max int) []byte {
 	if max < 1 {
 		max = 1
@@ -637,6 +716,9 @@ func (d *c05mem) chunk(max int) []byte {
 	n := 1 + d.r.Intn(max)
 	if d.r.Chance(1, 6) {
 		n = 1 + d.r.Intn(4)
+	}
+	if n > max {
+		n = max
 	}
 	return d.r.Bytes(n)
 }
@@ -656,13 +738,13 @@ func (d *c05mem) step() bool {
 	var cs []cand
 	add := func(w int, f func()) { cs = append(cs, cand{w, f}) }
 
-	if d.aofW != nil {
+	if d.aofW != nil && d.aofBlocked == nil {
 		add(35, func() {
 			max := int(d.logSize) / 2
 			if r.Chance(1, 5) {
 				max = int(d.logSize) * 2
 			}
-			d.opAofAppend(d.chunk(max))
+			d.opAofAppend(d.chunk(d.pieceLimit(max, c05mSegLen(d.aofW.(*MemoryAofWriter).currentSegment()))))
 			d.s.Count("op_aof_append")
 		})
 		add(2, func() { d.opAofClose(); d.s.Count("op_aof_close") })
@@ -674,7 +756,7 @@ func (d *c05mem) step() bool {
 			d.opAofWriter(off)
 			d.s.Count("op_aof_replace")
 		})
-	} else if d.rdbW == nil {
+	} else if d.aofW == nil && d.rdbW == nil {
 		add(12, func() {
 			off := int64(100 + r.Intn(900))
 			if d.stream != nil {
@@ -689,12 +771,15 @@ func (d *c05mem) step() bool {
 			d.s.Count("op_aof_writer")
 		})
 	}
-	if d.rdbW != nil {
+	if d.rdbW != nil && d.rdbBlocked == nil {
 		add(30, func() {
 			rem := d.snapS.size - int64(len(d.snapS.bytes))
 			n := int64(1 + r.Intn(int(rem)))
 			if r.Chance(1, 3) {
 				n = rem
+			}
+			if lim := int64(d.pieceLimit(int(n), c05mSegLen(d.rdbW.(*MemoryRdbWriter).currentSegment()))); n > lim {
+				n = lim
 			}
 			d.opRdbAppend(r.Bytes(int(n)))
 			d.s.Count("op_rdb_append")
@@ -702,7 +787,7 @@ func (d *c05mem) step() bool {
 		add(2, func() { d.opRdbClose(); d.s.Count("op_rdb_close_early") })
 	}
 	add(2, func() {
-		if d.aofW != nil && r.Chance(1, 2) {
+		if d.aofW != nil && d.aofBlocked == nil && r.Chance(1, 2) {
 			d.opAofClose()
 			d.observe()
 		}
@@ -727,8 +812,23 @@ func (d *c05mem) step() bool {
 			if off < 0 {
 				off = 0
 			}
+			rid := d.nextRid
 			d.opOpen(off)
+			if vr, ok := d.readers[rid]; ok && !r.Chance(1, 5) {
+				_ = vr
+				d.observe()
+				d.opStart(rid)
+			}
 		})
+	}
+	var unstarted []int
+	for _, id := range live {
+		if !d.readers[id].started {
+			unstarted = append(unstarted, id)
+		}
+	}
+	if len(unstarted) > 0 {
+		add(4, func() { d.opStart(vfutil.Pick(r, unstarted)); d.s.Count("op_start_delayed") })
 	}
 	if len(live) > 0 {
 		add(30, func() {
@@ -834,6 +934,10 @@ func (d *c05mem) runScript(script string) {
 		case "mopen":
 			d.nextRid = int(num(1))
 			d.opOpen(num(2))
+		case "mstart":
+			if vr, ok := d.readers[int(num(1))]; ok && !vr.started {
+				d.opStart(int(num(1)))
+			}
 		case "mread":
 			if _, ok := d.readers[int(num(1))]; ok {
 				d.opRead(int(num(1)), int(num(2)))
